@@ -287,6 +287,61 @@ pub fn program_flat(version: (usize, usize, usize), t: &RTerm) -> Vec<u8> {
     w.bytes
 }
 
+
+/// Where a raw Data constant sits inside the program's single constant.
+#[derive(Clone, Copy, Debug, PartialEq, Eq)]
+pub enum RawShape {
+    Top,
+    InList,
+    InPair,
+    InListOfPairs,
+}
+
+/// The flat encoding of `(program v (con T ..))` whose Data leaves are given as raw CBOR
+/// bytes (so that non-canonical encodings can be expressed): a Data constant is the byte
+/// string of its CBOR, wherever it occurs.
+pub fn program_flat_raw_data(version: (usize, usize, usize), shape: RawShape, cbor: &[u8]) -> Vec<u8> {
+    let mut w = Bits::new();
+    w.natural(&BigInt::from(version.0));
+    w.natural(&BigInt::from(version.1));
+    w.natural(&BigInt::from(version.2));
+    w.bits(4, 4);
+    let pair_dd = RType::Pair(Box::new(RType::Data), Box::new(RType::Data));
+    let ty = match shape {
+        RawShape::Top => RType::Data,
+        RawShape::InList => RType::List(Box::new(RType::Data)),
+        RawShape::InPair => pair_dd.clone(),
+        RawShape::InListOfPairs => RType::List(Box::new(pair_dd)),
+    };
+    let mut tags = vec![];
+    type_tags(&ty, &mut tags);
+    for t in tags {
+        w.bit(true);
+        w.bits(4, t);
+    }
+    w.bit(false);
+    match shape {
+        RawShape::Top => w.bytestring(cbor),
+        RawShape::InList => {
+            w.bit(true);
+            w.bytestring(cbor);
+            w.bit(false);
+        }
+        RawShape::InPair => {
+            w.bytestring(cbor);
+            w.bytestring(cbor);
+        }
+        RawShape::InListOfPairs => {
+            w.bit(true);
+            w.bytestring(cbor);
+            w.bytestring(cbor);
+            w.bit(false);
+        }
+    }
+    w.pad();
+    w.bytes
+}
+
 /// CBOR byte string wrapping (definite length), as used for script bytes.
 pub fn cbor_bytes_wrap(b: &[u8]) -> Vec<u8> {
     let mut out = vec![];
